@@ -454,7 +454,7 @@ func (f *Frame) loopCut(li *loopInfo, cur *State) {
 		env := f.loopEnv(li, cur, nil)
 		for _, inv := range c.Invs {
 			g := f.evalClause(inv, env, cur, &f.entry)
-			un.obligeNamed(cur, fmt.Sprintf("loop#%d/invariant#%d.init", li.ordinal, inv.Idx), "invariant", inv.Text, inv.Pos, g)
+			un.obligeNamed(cur, fmt.Sprintf("loop#%d/invariant#%s.init", li.ordinal, inv.label()), "invariant", inv.Text, inv.Pos, g)
 		}
 	}
 	li.entrySt = cur.clone()
@@ -530,6 +530,6 @@ func (f *Frame) loopBack(li *loopInfo, from *ssa.BasicBlock, st *State) {
 	env := f.loopEnv(li, st, phiVals)
 	for _, inv := range c.Invs {
 		g := f.evalClause(inv, env, st, &f.entry)
-		f.un.obligeNamed(st, fmt.Sprintf("loop#%d/invariant#%d.preserve@b%d", li.ordinal, inv.Idx, from.Index), "invariant", inv.Text, inv.Pos, g)
+		f.un.obligeNamed(st, fmt.Sprintf("loop#%d/invariant#%s.preserve@b%d", li.ordinal, inv.label(), from.Index), "invariant", inv.Text, inv.Pos, g)
 	}
 }
